@@ -317,7 +317,7 @@ func numfCase(r *Run, line string, x *V, steps []numStep) string {
 	case panicked:
 		res = "panic"
 	case err != nil:
-		res = "err " + causeKind(err)
+		res = "err " + filterCauseKind(err)
 	default:
 		res = guard(func() string { return "ok " + Reify(out).Enc() + " " + hexField(text) })
 	}
